@@ -311,7 +311,8 @@ fn file_items(tier: Tier) -> Box<dyn Iterator<Item = FCase>> {
         };
         v.push(FCase::Regular { mode, prefix_len: if i % 4 == 3 { 100 } else { 0 }, len: *len, content: Content { kind: 3, seed: i as u64 } });
     }
-    for p in ["/proc/version", "/proc/cpuinfo", "/dev/null", "/proc/self/cmdline", "/etc/hostname", "/sys/kernel/notes", "/proc/filesystems"] {
+    // /sys/kernel/btf/vmlinux: several MB, readable, but mmap() fails on it (the repository's own io test uses it)
+    for p in ["/proc/version", "/proc/cpuinfo", "/dev/null", "/proc/self/cmdline", "/etc/hostname", "/sys/kernel/notes", "/proc/filesystems", "/sys/kernel/btf/vmlinux"] {
         v.push(FCase::Special { path: p.to_string() });
     }
     v.push(FCase::Directory);
